@@ -497,7 +497,9 @@ func (c *FnCtx) evalIndex(st *State, x *ast.IndexExpr) *Term {
 		i := c.eval(st, x.Index)
 		c.oblige(st, "safe:idx", x, "", "index in range: "+c.exprText(x), mkAnd(mkLe(intLit(0), i), mkLt(i, c.sliceLen(s))))
 		st.assume(mkAnd(mkLe(intLit(0), i), mkLt(i, c.sliceLen(s))))
-		return c.sliceAt(s, i)
+		el := c.sliceAt(s, i)
+		c.extElemFacts(st, el, elemType(xt))
+		return el
 	case *types.Basic:
 		if isStringType(xt) {
 			s := c.eval(st, x.X)
@@ -797,4 +799,29 @@ func (c *FnCtx) newMap(st *State, mt *types.Map) *Term {
 	// values of absent keys are irrelevant; keep the old value array
 	_ = c.mapVal(st, r, mt)
 	return r
+}
+
+// extElemFacts: elements of slices of AST nodes / type-checker objects are not nil (well-formed library data).
+func (c *FnCtx) extElemFacts(st *State, el *Term, et types.Type) {
+	if et == nil {
+		return
+	}
+	if isExtPointer(et) || isExtInterface(et) {
+		st.assume(mkNot(mkEq(el, intLit(0))))
+		c.trustedUsed["elements of slices of external pointers/interfaces (AST nodes, type-checker objects) are not nil"] = true
+		if isExtPointer(et) {
+			st.assume(mkEq(mk("dyntype", "TypeTag", el), c.typeTag(et)))
+		}
+	}
+}
+
+func isExtInterface(t types.Type) bool {
+	n, ok := types.Unalias(t).(*types.Named)
+	if !ok {
+		return false
+	}
+	if _, ok := n.Underlying().(*types.Interface); !ok {
+		return false
+	}
+	return n.Obj().Pkg() != nil && !isRepoPkg(n.Obj().Pkg())
 }
